@@ -407,6 +407,9 @@ def rule_loops(s, loops):
                         if d == 0: break
                     j += 1
                 do_tails.add(j + 1)
+                # `do { ... } while (0)` is a statement wrapper, not a loop: not counted
+                if [t[0] for t in toks[j + 1:j + 5]] == ['while', '(', '0', ')']:
+                    loopsites.pop()
             elif t == 'for' or (t == 'while' and i not in do_tails):
                 loopsites.append((t, i))
             i += 1
@@ -507,6 +510,8 @@ def extract(meta, harness_path, workdir, native=False):
         extra.append('-DVERIF_SEQ=1')
     if native:
         extra.append('-DVERIF_NATIVE=1')
+    if meta.get('plain'):
+        extra.append('-DVERIF_PLAIN=1')
     extra.append('-DVERIF_LOG_CAP=%d' % meta.get('log_cap', 12))
     ipath = os.path.join(workdir, 'tu.i')
     cmd = preprocess(wrapper, ipath, extra, native)
